@@ -514,3 +514,17 @@ def x02(ctx):
                          "against TsPacket!ExpectSetAfc. class = (packet kind, from, to, error)",
                     trace_module="Trace_X02", sigfn=V.default_sig,
                     assumptions=["not one of the given properties: the operation is modelled as the library has it; not registered in MANIFEST.json"])
+
+
+# ---------------------------------------------------------------- X03 (spec growth, not a listed property)
+
+@prop("X03", "Trace_X03")
+def x03(ctx):
+    summ = V.gen_traces(ctx, shards=12)
+    V.validate(ctx, "Trace_X03", summ, V.default_sig, par=12)
+    ctx.states = 0
+    return V.finish(ctx, "exploration",
+                    rule="the histories of C10 (all short ProcessDescriptor histories over the 50-descriptor alphabet + random long ones); TLC carries Scte35State along each history and "
+                         "compares the validation error returned with the closed list (missing out / invalid resumption / none) with Scte35State!Warn. class = (op, type, result, #closed, #open)",
+                    trace_module="Trace_X03", sigfn=V.default_sig,
+                    assumptions=["not one of the given properties: the validation verdict is modelled as the library has it; not registered in MANIFEST.json"])
